@@ -167,7 +167,7 @@ PROPS = {
         level_text="Container: the real parse_tls_record_with_header body (sliced from /repo each run) is proved by Verus to be, per content type, the explicit accumulate-while-Ok loop over the per-message parser (many1(complete(p))), one blob for application data, one completed heartbeat, Switch error for all other 251 types - for every payload length; consequences proved as lemmas: a whole record never answers Incomplete, empty CCS/alert payloads and malformed first messages never yield a value, alerts decode pairwise in wire order with an odd trailing byte left as remainder. This is relative to the nom combinator contracts (complete / many1), which are assumptions in Verus and bounded Kani obligations on the real nom. Leaf message parsers: Kani harnesses on the compiled code (full-domain for CCS/alert, bounded for heartbeat / application data).",
         level_note="Trusted: nom shim contracts for complete/many1 (Kani shim_* harnesses, bounded); 'fun_of(parse_x) is the function parse_x computes' for each abstract message parser (determinism of safe, state-free code) and 'remainder is never longer than the input' (checked as is_suffix in the Kani leaves); leaf contracts ccs_post/alert_post/appdata_post are assumed in Verus and are the assertions of fd_msg_ccs / fd_msg_alert / leaf_msg_appdata. One-step == two-step parsing is decided in C02 (plaintext glue), not here.",
         technique="contract-based deductive verification: Verus on the extracted container + Kani contract harnesses for the leaf message parsers",
-        verus=["many", "plaintext"],
+        verus=["many", "plaintext", "messages"],
         kani=[dict(quick=["fd_msg_ccs", "fd_msg_alert", "leaf_msg_appdata", "leaf_msg_heartbeat", "leaf_prwh_heartbeat", "leaf_prwh_appdata", "shim_complete", "shim_many1"], timeout=900)],
         paired={"many": ["leaf_prwh_heartbeat", "leaf_prwh_appdata"]},
         explanation="see level_text",
@@ -291,7 +291,7 @@ PROPS = {
         level_text="'f(b) returns' = every compiler-inserted check (slice bounds, arithmetic overflow, unwrap/expect, debug_assert, unreachable) reachable from the function is discharged. Verus discharges them for all inputs on the extracted bodies (record framing, plaintext glue, handshake / extension / DTLS dispatchers, record-payload containers, multi-record parsers) and - with NO precondition on the object state, hence for every finite call sequence - on all four TlsRecordsParser methods, including the 10 MiB buffer bound. Kani discharges them on the compiled code (crate + nom + core, overflow checks and debug assertions on) for every body/content/leaf parser, with each manual index/subtraction guard site driven by its numeric parameter over the full usize/u16 domain (len-4, ext_len-1, len%2, len>i.len(), chunk[1], take(32)->[u8;32] expect, heartbeat len<3); bounded in input length.",
         level_note="NOT decided: the heap-use bound (neither verifier has a resource model; only the defragmenter's buffer cap is proved); Debug/Display of structured values (core::fmt is beyond CBMC's budget; tls_debug.rs has no indexing and one multiplication dh_g.len()*8 bounded by the parser's u16 length; registry newtypes' Display/Debug run for every value in the C17 stand-in); termination of nom's many0/many1 loops beyond the stated input bounds (their progress guard is in nom's source; the shim harnesses exercise it).",
         technique="contract-based deductive verification (Verus, unbounded) + Kani panic-freedom obligations on the compiled code (bounded length)",
-        verus=["defrag", "frame", "plaintext", "many", "dispatch_hs", "dispatch_ext", "ext_lists", "bodies", "sct", "dtls", "dtls_many"],
+        verus=["defrag", "frame", "plaintext", "many", "dispatch_hs", "dispatch_ext", "ext_lists", "bodies", "messages", "sct", "dtls", "dtls_many"],
         kani=[dict(quick=["leaf_cipher_suites", "leaf_compressions", "leaf_tls_versions", "leaf_named_groups", "leaf_hs_newsessionticket", "leaf_ext_status_request", "leaf_ext_supported_versions",
                           "leaf_sct_entry", "leaf_msg_heartbeat", "leaf_prwh_heartbeat", "leaf_prwh_appdata", "fd_raw_record_small", "mod_client_hello", "mod_dtls_client_hello",
                           "leaf_hs_certificate", "leaf_ext_sni", "leaf_ec_parameters", "fd_dtls_header", "fd_defrag_default"],
